@@ -76,7 +76,9 @@ func (s *Service) Proposal(ctx context.Context,
 	// cancel the context to cancel the other requests.
 	ctx, cancel := context.WithTimeout(ctx, s.timeout)
 
-	proposalCh := make(chan *api.VersionedProposal, 1)
+	// The channel has room for every provider, so that a provider that responds after the first
+	// response has been taken does not block for ever.
+	proposalCh := make(chan *api.VersionedProposal, len(s.proposalProviders))
 	for name, provider := range s.proposalProviders {
 		go func(ctx context.Context, name string, provider eth2client.ProposalProvider, ch chan *api.VersionedProposal) {
 			log := s.log.With().Str("provider", name).Uint64("slot", uint64(opts.Slot)).Logger()
